@@ -138,13 +138,13 @@ def canon_where(where):
 
 
 def vkey(entry, v):
+    """Identity of a violation: harness entry + obligation label. For panics/exits the
+    runtime message is normalised (all numbers inside brackets and after length/capacity
+    dropped) so that one panic site is one key, whatever the concrete sizes were."""
     label = v["Label"]
     if v["Kind"] in ("panic", "exit", "wedge"):
-        # normalise numbers in runtime messages
-        label = re.sub(r"\[[-0-9a-fx]+\]", "[N]", label)
-        label = re.sub(r"length \d+", "length N", label)
-        label = re.sub(r"capacity \d+", "capacity N", label)
-        return f"{entry}:{label}"
+        label = re.sub(r"\[(?!IE=)[^\]\[]*\]", "[N]", label)
+        label = re.sub(r"(length|capacity) \d+", r"\1 N", label)
     return f"{entry}:{label}"
 
 
@@ -185,8 +185,16 @@ def run_check(prop, tier, seed, spec, work, t0):
     only = os.environ.get("VERIF_ONLY")
     if only:
         jobs = [dict(j, entries=[only]) for j in jobs[:1]]
-    pkgs = sorted({j["pkg"] for j in jobs} | set(spec.get("extra_pkgs", [])))
-    dep_ov = {v: os.path.join(VERIF, r) for v, r in spec.get("dep_overlays", {}).items()}
+    pkgs = {j["pkg"] for j in jobs} | set(spec.get("extra_pkgs", []))
+    dep_rel = dict(spec.get("dep_overlays", {}))
+    # harness dependencies between packages: the pfcp harness (C07 sweep, C13) drives the gtp5g
+    # driver through constructors exported by the forwarder harness, which in turn needs the
+    # perio harness and the add-only go-nl overlay (DoHook is nil unless a harness installs it)
+    if "internal/pfcp" in pkgs or "internal/forwarder" in pkgs:
+        pkgs |= {"internal/forwarder", "internal/forwarder/perio"}
+        dep_rel.update(CH.NL_OV)
+    pkgs = sorted(pkgs)
+    dep_ov = {v: os.path.join(VERIF, r) for v, r in dep_rel.items()}
     sym_ov, nat_ov = build_overlays(work, pkgs, dep_ov)
     for v, r in spec.get("sym_overlays", {}).items():
         sym_ov[v] = os.path.join(VERIF, r)
@@ -313,6 +321,8 @@ def run_check(prop, tier, seed, spec, work, t0):
     lines = []
     new_viol = 0
     rdir = os.path.join(VERIF, "replay", prop)
+    # the directory reflects this run only: files of superseded keys would be misleading
+    shutil.rmtree(rdir, ignore_errors=True)
     os.makedirs(rdir, exist_ok=True)
     for key, rec in sorted(viol_by_key.items()):
         if rec["cid"] not in confirmed and not spec.get("no_native") and not rec.get("no_native"):
@@ -379,8 +389,13 @@ def replay_one(path):
     spec = CH.CHECKS[prop]
     work = tempfile.mkdtemp(prefix="vreplay_")
     try:
-        dep_ov = {v: os.path.join(VERIF, r) for v, r in spec.get("dep_overlays", {}).items()}
-        _, nat_ov = build_overlays(work, sorted({rec["pkg"]} | set(spec.get("extra_pkgs", []))), dep_ov)
+        dep_rel = dict(spec.get("dep_overlays", {}))
+        rpkgs = {rec["pkg"]} | set(spec.get("extra_pkgs", []))
+        if "internal/pfcp" in rpkgs or "internal/forwarder" in rpkgs:
+            rpkgs |= {"internal/forwarder", "internal/forwarder/perio"}
+            dep_rel.update(CH.NL_OV)
+        dep_ov = {v: os.path.join(VERIF, r) for v, r in dep_rel.items()}
+        _, nat_ov = build_overlays(work, sorted(rpkgs), dep_ov)
         res = native_replay(work, nat_ov, rec["pkg"], [rec["case"]])
         r = res.get(rec["case"]["id"])
         print(json.dumps({"expected": rec["expect"], "native": r}, indent=1))
